@@ -318,26 +318,28 @@ impl<'a> Tr<'a> {
         out: &mut String,
     ) {
         let any = self.any();
-        // --- is the position specified at all? ---
-        if l == Tri::Varies || r == Tri::Varies {
-            self.unspecified = Some("U4: tree wildcard at the edge of a repeating body");
-            return;
-        }
-        if !lead && l != Tri::No {
-            self.unspecified = Some("U4: undelimited tree wildcard after a token (nested)");
-            return;
-        }
-        if !trail && r != Tri::No {
-            self.unspecified = Some("U4: undelimited tree wildcard before a token (nested)");
-            return;
-        }
-        if (l == Tri::Yes && !solid_l) || (r == Tri::Yes && !solid_r) {
-            self.unspecified = Some("U4: only optional repetitions beside a tree wildcard");
-            return;
-        }
-        if trail && r == Tri::No && l != Tri::No {
-            self.unspecified = Some("U5: tree wildcard with absorbed trailing separator ends the expression");
-            return;
+        // --- is the position specified at all? (the mirror of the encoder, D4, always is) ---
+        if !self.dev.d4 {
+            if l == Tri::Varies || r == Tri::Varies {
+                self.unspecified = Some("U4: tree wildcard at the edge of a repeating body");
+                return;
+            }
+            if !lead && l != Tri::No {
+                self.unspecified = Some("U4: undelimited tree wildcard after a token (nested)");
+                return;
+            }
+            if !trail && r != Tri::No {
+                self.unspecified = Some("U4: undelimited tree wildcard before a token (nested)");
+                return;
+            }
+            if (l == Tri::Yes && !solid_l) || (r == Tri::Yes && !solid_r) {
+                self.unspecified = Some("U4: only optional repetitions beside a tree wildcard");
+                return;
+            }
+            if trail && r == Tri::No && l != Tri::No {
+                self.unspecified = Some("U5: tree wildcard with absorbed trailing separator ends the expression");
+                return;
+            }
         }
         let (l, r) = (l == Tri::Yes, r == Tri::Yes);
         // prunes follow the specification, not the deviation
@@ -470,5 +472,15 @@ mod tests {
         assert!(d.accepts("ac") && d.accepts("bcc") && !d.accepts("a") && !d.accepts("accc"));
         assert!(matches!(reference(&parse("x{**/a,b}").unwrap(), &Deviations::default()), Spec::Unspecified(_)));
         assert!(matches!(reference(&parse("<a/**/:1,2>").unwrap(), &Deviations::default()), Spec::Unspecified(_)));
+    }
+}
+
+/// The recorded behaviour of the implementation's encoder (deviations D1 and D4 on): defined for
+/// every expression, used only to attribute an alarm to a recorded finding.
+pub fn mirror_regex(seq: &[Node]) -> String {
+    let dev = Deviations { d1: true, d2: false, d3: false, d4: true };
+    match reference(seq, &dev) {
+        Spec::Specified(r) => r.regex,
+        Spec::Unspecified(_) => "^[a&&b]$".to_string(),
     }
 }
